@@ -113,3 +113,23 @@ CHECKS["C04"] = {
     "assumptions": ["bytes outside the 13-symbol structural alphabet behave like one of its members (letter / 8-bit byte)",
                     "allocation failure is not injected"],
 }
+
+CHECKS["C01"] = {
+    "engine": "E1",
+    "technique": "bounded exhaustive enumeration of all configuration trees over a name universe, per parameter shape, real layered read on a real tmpfs tree against a reference lookup",
+    "level_text": "every tree (3-4 layers x main file {absent, regular, empty, ->/dev/null} x every subset of the drop-in name universe per layer) is "
+                  "materialised on tmpfs and read by the real econf_readConfigWithCallback for 14 parameter shapes; return code, the sequence of paths "
+                  "given to the callback and the resulting (section,key)->value map are compared with a reference written from the statement; file contents "
+                  "encode which files were applied and the relative order of every pair",
+    "level_note": "bounded: name universe of 5 (quick) / 6 (thorough) names for the default shape, 2-3 / 4 for the other shapes; C locale only (alphasort = byte order); "
+                  "trusted: reference in harness/tree.h, tmpfs semantics, ASan/UBSan",
+    "rule": "case = (parameter shape, tree); non-trivial = at least two files applied or at least one file masked; distinct by construction; universe contains "
+            "names whose byte order differs from numeric (10-a < 9-b) and dictionary (B < a) order, a name without suffix, (thorough) a dot file, the bare suffix and x.conf.bak",
+    "deadline": {"quick": 110, "thorough": 1500},
+    "parts": [
+        {"name": "trees", "harness": "c01", "variant": "asan", "quick": ["--p0", 5, "--p1", 2], "thorough": ["--p0", 6, "--p1", 4],
+         "floor": {"quick": 100000, "thorough": 1000000}},
+    ],
+    "assumptions": ["only the C/POSIX locales exist in the image, so strcoll order = byte order",
+                    "a drop-in named exactly like the main file and a <project>.<suffix> file in drop-in-only mode are outside the property"],
+}
